@@ -1,8 +1,139 @@
 /-
-  C13 — property theorems (being added; see tools/agent_briefs/C13.md)
+  C13 — punctuation re-attachment (`punctuation_verylow`, `punctuation_root`,
+  `punctuation_symetrify`): the token multiset, the constituent labels, the sentence and
+  well-formedness are kept; post-conditions of verylow/root.
+  Helper lemmas: TT/Lemmas/Punct.lean.
 -/
 import TT.Spec.Transform
+import TT.Transform.Punct
+import TT.Lemmas.WF
+import TT.Lemmas.Punct
 namespace TT.Props.C13
 open TT TT.Tree TT.Spec
+open TT.Lemmas.WF TT.Lemmas.Punct
+
+/-- example: `(S (NP (A 1) (, 2)) (VP (B 3) (" 4) (C 5)) (. 6))` -/
+def exT : Tree :=
+  node { label := "S".toList, uid := some 0 } [
+    node { label := "NP".toList, uid := some 1 } [
+      leaf 1 { label := "A".toList, word := some "a".toList, uid := some 2 },
+      leaf 2 { label := ",".toList, word := some ",".toList, uid := some 3 }],
+    node { label := "VP".toList, uid := some 4 } [
+      leaf 3 { label := "B".toList, word := some "b".toList, uid := some 5 },
+      leaf 4 { label := "Q".toList, word := some "\"".toList, uid := some 6 },
+      leaf 5 { label := "C".toList, word := some "c".toList, uid := some 7 }],
+    leaf 6 { label := ".".toList, word := some ".".toList, uid := some 8 }]
+
+example : WF exT = true := by decide
+example : uidsOK exT = true := by decide
+
+/-! ## building blocks: moving a token keeps the token multiset and the constituent labels -/
+
+theorem removeLeaf_leaves (k : Nat) (t l : Tree) (hn : t.leafNums.Nodup) (hf : t.findLeaf k = some l) (ht : t.isLeaf = false) :
+    (l :: (removeLeaf k t).leaves).Perm t.leaves := by
+  rw [removeLeaf_leaves_eq k t ht hn]
+  exact perm_cons_filter_of_find num k t.leaves l hn hf
+
+example : exT.leafNums.Nodup ∧ (exT.findLeaf 4).map fields = some { label := "Q".toList, word := some "\"".toList, uid := some 6 }
+    ∧ exT.isLeaf = false := by decide
+
+theorem appendBeside_leaves (j : Nat) (x : Tree) (t : Tree) (hn : t.leafNums.Nodup) (hj : j ∈ t.leafNums) (ht : t.isLeaf = false) :
+    (appendBeside j x t).leaves.Perm (t.leaves ++ x.leaves) :=
+  appendBeside_leaves_perm j x t hn hj ht
+
+example : exT.leafNums.Nodup ∧ 3 ∈ exT.leafNums ∧ exT.isLeaf = false := by decide
+
+theorem moveLeafBeside_leaves (t : Tree) (i j : Nat) (hn : t.leafNums.Nodup) (hi : i ∈ t.leafNums) (hj : j ∈ t.leafNums)
+    (hij : i ≠ j) (ht : t.isLeaf = false) : (moveLeafBeside t i j).leaves.Perm t.leaves :=
+  moveLeafBeside_leaves_perm t i j hn hi hj hij ht
+
+example : exT.leafNums.Nodup ∧ 2 ∈ exT.leafNums ∧ 3 ∈ exT.leafNums ∧ 2 ≠ 3 ∧ exT.isLeaf = false := by decide
+
+theorem moveLeafBeside_consLabels (t : Tree) (i j : Nat) : consLabels (moveLeafBeside t i j) = consLabels t :=
+  moveLeafBeside_consLabels_eq t i j
+
+/-! ## verylow -/
+
+theorem verylow_leaves (t : Tree) (h : WF t = true) : (punctuationVerylow t).leaves.Perm t.leaves :=
+  (verylow_inv t h).perm
+
+theorem verylow_consLabels (t : Tree) : consLabels (punctuationVerylow t) = consLabels t := by
+  unfold punctuationVerylow
+  exact foldl_inv (fun c => consLabels c = consLabels t) verylowStep _ t
+    (fun c i _ hc => (verylowStep_consLabels c i).trans hc) rfl
+
+theorem verylow_sentence (t : Tree) (h : WF t = true) : sentence (punctuationVerylow t) = sentence t :=
+  sentence_of_leaves_perm t _ (verylow_leaves t h) (WF_nodup t h)
+
+theorem verylow_WF (t : Tree) (h : WF t = true) : WF (punctuationVerylow t) = true :=
+  (verylow_inv t h).WF h
+
+example : (punctuationVerylow exT).beq
+    (node { label := "S".toList, uid := some 0 } [
+      node { label := "NP".toList, uid := some 1 } [
+        leaf 1 { label := "A".toList, word := some "a".toList, uid := some 2 },
+        leaf 2 { label := ",".toList, word := some ",".toList, uid := some 3 }],
+      node { label := "VP".toList, uid := some 4 } [
+        leaf 3 { label := "B".toList, word := some "b".toList, uid := some 5 },
+        leaf 4 { label := "Q".toList, word := some "\"".toList, uid := some 6 },
+        leaf 5 { label := "C".toList, word := some "c".toList, uid := some 7 },
+        leaf 6 { label := ".".toList, word := some ".".toList, uid := some 8 }]]) = true := by decide +kernel
+
+/-! ## root -/
+
+theorem root_leaves (t : Tree) (h : WF t = true) : (punctuationRoot t).leaves.Perm t.leaves :=
+  (root_inv t h).perm
+
+theorem root_consLabels (t : Tree) : consLabels (punctuationRoot t) = consLabels t := by
+  unfold punctuationRoot
+  exact foldl_inv (fun c => consLabels c = consLabels t) rootStep _ t
+    (fun c i _ hc => (rootStep_consLabels c i).trans hc) rfl
+
+theorem root_sentence (t : Tree) (h : WF t = true) : sentence (punctuationRoot t) = sentence t :=
+  sentence_of_leaves_perm t _ (root_leaves t h) (WF_nodup t h)
+
+theorem root_WF (t : Tree) (h : WF t = true) : WF (punctuationRoot t) = true :=
+  (root_inv t h).WF h
+
+example : (punctuationRoot exT).beq
+    (node { label := "S".toList, uid := some 0 } [
+      node { label := "NP".toList, uid := some 1 } [
+        leaf 1 { label := "A".toList, word := some "a".toList, uid := some 2 }],
+      node { label := "VP".toList, uid := some 4 } [
+        leaf 3 { label := "B".toList, word := some "b".toList, uid := some 5 },
+        leaf 5 { label := "C".toList, word := some "c".toList, uid := some 7 }],
+      leaf 2 { label := ",".toList, word := some ",".toList, uid := some 3 },
+      leaf 4 { label := "Q".toList, word := some "\"".toList, uid := some 6 },
+      leaf 6 { label := ".".toList, word := some ".".toList, uid := some 8 }]) = true := by decide +kernel
+
+/-! ## symetrify -/
+
+theorem sym_leaves (relc : Option Str) (t : Tree) (h : WF t = true) : (punctuationSymetrify relc t).leaves.Perm t.leaves :=
+  (sym_inv relc t h).perm
+
+theorem sym_consLabels (relc : Option Str) (t : Tree) : consLabels (punctuationSymetrify relc t) = consLabels t := by
+  unfold punctuationSymetrify
+  exact foldl_inv (fun (s : SymState) => consLabels s.cur = consLabels t) _ _ _
+    (fun s i _ hs => (symStep_consLabels _ _ s i).trans hs) rfl
+
+theorem sym_sentence (relc : Option Str) (t : Tree) (h : WF t = true) : sentence (punctuationSymetrify relc t) = sentence t :=
+  sentence_of_leaves_perm t _ (sym_leaves relc t h) (WF_nodup t h)
+
+theorem sym_WF (relc : Option Str) (t : Tree) (h : WF t = true) : WF (punctuationSymetrify relc t) = true :=
+  (sym_inv relc t h).WF h
+
+/-- example with a quote pair split over two constituents:
+    `(S (NP (" 1) (A 2)) (VP (B 3) (" 4)))` -/
+def exS : Tree :=
+  node { label := "S".toList, uid := some 0 } [
+    node { label := "NP".toList, uid := some 1 } [
+      leaf 1 { label := "Q".toList, word := some "\"".toList, uid := some 2 },
+      leaf 2 { label := "A".toList, word := some "a".toList, uid := some 3 }],
+    node { label := "VP".toList, uid := some 4 } [
+      leaf 3 { label := "B".toList, word := some "b".toList, uid := some 5 },
+      leaf 4 { label := "Q".toList, word := some "\"".toList, uid := some 6 }]]
+
+example : WF exS = true := by decide
+#eval punctuationSymetrify none exS
 
 end TT.Props.C13
